@@ -395,14 +395,20 @@ static struct rnode *rnode_atom(char **pat)
 		rnode->mincnt = 0;
 		rnode->maxcnt = 0;
 		++*pat;
-		while (isdigit((unsigned char) **pat))
-			rnode->mincnt = rnode->mincnt * 10 + *(*pat)++ - '0';
+		while (isdigit((unsigned char) **pat)) {
+			if (rnode->mincnt <= NREPS)
+				rnode->mincnt = rnode->mincnt * 10 + **pat - '0';
+			(*pat)++;
+		}
 		if (**pat == ',') {
 			(*pat)++;
 			if ((*pat)[0] == '}')
 				rnode->maxcnt = -1;
-			while (isdigit((unsigned char) **pat))
-				rnode->maxcnt = rnode->maxcnt * 10 + *(*pat)++ - '0';
+			while (isdigit((unsigned char) **pat)) {
+				if (rnode->maxcnt <= NREPS)
+					rnode->maxcnt = rnode->maxcnt * 10 + **pat - '0';
+				(*pat)++;
+			}
 		} else {
 			rnode->maxcnt = rnode->mincnt;
 		}
